@@ -4,8 +4,9 @@
      written, with a correct size field - since repo commit 954ff09 also when sample_count is 0 and bytes follow
      (C02-K1 / K2 / K4, refuted for the text before it);
    - after a successful ParseReadBox the encoders write calcSize() bytes while Size() still answers readBoxSize:
-     equal exactly when the second phase consumed all the bytes, which the sub-sample path checks and the path without
-     sub-samples does not (`senc_parse_exact`; refuted otherwise: C02-K5). *)
+     equal exactly when the second phase consumed all the bytes (`senc_parse_exact`), which the sub-sample path checks
+     and, since repo commit 4cf4f8b, the path without sub-samples too: every decoded and parsed box is exact
+     (senc_parsed_always_exact); the text before 4cf4f8b is refuted (C02-K5). *)
 From V.lib Require Import Base.
 From V.c05 Require Import C05CodecModel C05CodecProofs.
 From V.c02 Require Import C02AggModel C02AggSizeProofs C02AggSencModel C02AggSencProofs.
@@ -171,7 +172,8 @@ Record parsed_facts (s s' : senc) : Prop := {
   pf_len : 16 + sn_count s' * sn_ivsize s'
            + (if sn_use_subs s' then sumN (map (fun l : list subsample => 2 + 6 * lenN l) (sn_subs s')) else 0)
            = (if sn_use_subs s' then 16 + lenN (sn_raw s') else 16 + sn_count s' * sn_ivsize s');
-  pf_fit : sn_count s' * sn_ivsize s' <= lenN (sn_raw s') }.
+  pf_fit : sn_count s' * sn_ivsize s' <= lenN (sn_raw s');
+  pf_exact : lenN (sn_raw s') < 4294967296 -> sn_use_subs s' = true \/ sn_count s' * sn_ivsize s' = lenN (sn_raw s') }.
 
 Lemma fill_facts s piv s1 : sn_ivs s = [] -> sn_use_subs s = true -> sn_np s = true ->
   senc_fill s piv = (s1, true) -> parsed_facts s (sn_parsed s1).
@@ -189,13 +191,14 @@ Proof.
   - unfold flag_ok, sn_use_subs in *. cbn [sn_parsed sn_with_iv sn_flags]. rewrite Hu. apply orb_true_r.
   - unfold sn_use_subs in *. cbn [sn_parsed sn_with_iv sn_flags]. rewrite Hu. change (lenN (@nil N)) with 0 in S. lia.
   - change (lenN (@nil N)) with 0 in S. lia.
+  - intros _. left. unfold sn_use_subs in *. cbn [sn_parsed sn_with_iv sn_flags]. exact Hu.
 Qed.
 
 Lemma parse_facts hsize hlen payload s piv0 s' :
   decoded hsize hlen payload s -> piv0 < 256 -> senc_parse s piv0 = (s', Ok tt) -> parsed_facts s s'.
 Proof.
   intros D Hp H. destruct (decoded_fields _ _ _ _ D) as (Hi & Hv & Hs & Hr & Hn & Hf).
-  unfold senc_parse in H. destruct (sn_np s) eqn:Enp; cbn [negb] in H; [|discriminate].
+  unfold senc_parse, senc_parse_gen in H. destruct (sn_np s) eqn:Enp; cbn [negb] in H; [|discriminate].
   assert (Hc : sn_count s <> 0).
   { intros E. rewrite E in Hn. cbn [N.eqb orb negb] in Hn. discriminate. }
   set (s0 := if piv0 =? 0 then s else sn_with_iv s piv0 (sn_ivs s)) in *.
@@ -231,7 +234,7 @@ Proof.
     assert (Ec : (sn_count s =? 0) = false) by (apply N.eqb_neq; exact Hc). rewrite Ec, andb_false_r in H.
     set (left := u32 (lenN (sn_raw s))) in *.
     set (piv := if piv0 =? 0 then u8 (left / sn_count s) else piv0) in *.
-    destruct (left <? piv * sn_count s) eqn:El; [discriminate|]. apply N.ltb_ge in El.
+    destruct (negb (piv * sn_count s =? left)) eqn:El; [discriminate|]. apply negb_false_iff, N.eqb_eq in El.
     assert (Hleft : left <= lenN (sn_raw s)) by (unfold left, u32; apply N.mod_le; discriminate).
     destruct (piv =? 0) eqn:Ez.
     + injection H as <-. apply N.eqb_eq in Ez.
@@ -242,6 +245,8 @@ Proof.
       * unfold flag_ok, has_subs. cbn [sn_parsed sn_with_iv sn_subs]. rewrite A9. reflexivity.
       * unfold sn_use_subs in *. cbn [sn_parsed sn_with_iv sn_flags]. rewrite A7, Eu. lia.
       * rewrite Ez. lia.
+      * intros Hlt. right. assert (Hu32 : left = lenN (sn_raw s)) by (unfold left, u32; apply N.mod_small; exact Hlt).
+        rewrite N.mul_comm. rewrite <- Hu32. rewrite <- El, Ez. reflexivity.
     + destruct ((piv =? 8) || (piv =? 16)) eqn:E8; [|discriminate]. injection H as <-.
       destruct (rd_ivs_spec (N.to_nat (sn_count s)) (N.to_nat piv) (sn_raw s)) as [L F]. { lia. }
       constructor; cbn [sn_parsed sn_with_iv sn_np sn_count sn_raw sn_read sn_flags sn_version sn_ivsize sn_ivs sn_subs];
@@ -253,6 +258,8 @@ Proof.
       * unfold flag_ok, has_subs. cbn [sn_parsed sn_with_iv sn_subs]. rewrite A9. reflexivity.
       * unfold sn_use_subs in *. cbn [sn_parsed sn_with_iv sn_flags]. rewrite A7, Eu. lia.
       * lia.
+      * intros Hlt. right. assert (Hu32 : left = lenN (sn_raw s)) by (unfold left, u32; apply N.mod_small; exact Hlt).
+        rewrite N.mul_comm. rewrite <- Hu32. exact El.
 Qed.
 
 (* The bytes a parsed box writes: 16 + count * perSampleIVSize + the sub-sample tables - calcSize() - while Size()
@@ -267,7 +274,7 @@ Proof.
   intros D Hp H. pose proof (parse_facts _ _ _ _ _ _ D Hp H) as [].
   destruct (decoded_fields _ _ _ _ D) as (Hi & Hv & Hs & Hr & Hn & Hf).
   assert (Hc : sn_count s' <> 0).
-  { rewrite pf_count0. intros E. unfold senc_parse in H. destruct (sn_np s) eqn:Enp; [|discriminate].
+  { rewrite pf_count0. intros E. unfold senc_parse, senc_parse_gen in H. destruct (sn_np s) eqn:Enp; [|discriminate].
     rewrite E in Hn. cbn [N.eqb orb negb] in Hn. discriminate. }
   split; [unfold senc_size; rewrite pf_read0, pf_raw0, Hr; assert (Hq : (0 <? 16 + lenN (sn_raw s)) = true) by (apply N.ltb_lt; lia);
           rewrite Hq; reflexivity|].
@@ -317,15 +324,31 @@ Proof.
   - rewrite N.eqb_eq. unfold n. lia.
 Qed.
 
-(* C02-K5: two samples, no sub-sample flag, 17 bytes of per-sample data; ParseReadBox(0) infers 8-byte IVs and
-   leaves one byte: Size() 33, 32 bytes written *)
+(* since 4cf4f8b the guard always holds: every box the two decoding phases accept writes exactly Size() bytes *)
+Theorem senc_parsed_always_exact hsize hlen payload s piv0 s' :
+  decoded hsize hlen payload s -> piv0 < 256 -> senc_parse s piv0 = (s', Ok tt) -> 16 + lenN (sn_raw s') < TWO32 ->
+  senc_parse_exact s' = true /\
+  exists b, senc_encode_w s' = (s', Ok b) /\ senc_encode_sw s' = (s', Ok b) /\
+    senc_size s' = Ok (lenN b) /\ firstn 4 b = be32 (lenN b).
+Proof.
+  intros D Hp H Hs. pose proof (parse_facts _ _ _ _ _ _ D Hp H) as F.
+  assert (E : senc_parse_exact s' = true).
+  { unfold senc_parse_exact. destruct (pf_exact _ _ F) as [Hx|Hx];
+      [unfold TWO32 in Hs; lia|rewrite Hx; reflexivity|rewrite Hx, N.eqb_refl; apply orb_true_r]. }
+  split; [exact E|]. destruct (senc_parsed_exact _ _ _ _ _ _ D Hp H Hs) as (b & H1 & H2 & H3 & H4 & _ & H6).
+  exists b. rewrite (proj2 H6 E). repeat split; assumption.
+Qed.
+
+(* C02-K5 (the text before 4cf4f8b): two samples, no sub-sample flag, 17 bytes of per-sample data; ParseReadBox(0) infers
+   8-byte IVs and leaves one byte: Size() 33, 32 bytes written; now the second phase refuses the box *)
 Lemma senc_parse_trailing_refuted : exists hsize hlen payload s s' b,
-  decoded hsize hlen payload s /\ senc_parse s 0 = (s', Ok tt) /\ senc_parse_exact s' = false /\
-  senc_size s' = Ok 33 /\ senc_encode_w s' = (s', Ok b) /\ lenN b = 32.
+  decoded hsize hlen payload s /\ senc_parse_pinned s 0 = (s', Ok tt) /\ senc_parse_exact s' = false /\
+  senc_size s' = Ok 33 /\ senc_encode_w s' = (s', Ok b) /\ lenN b = 32 /\ snd (senc_parse s 0) = Err.
 Proof.
   exists 33, 8, ([0; 0; 0; 0; 0; 0; 0; 2] ++ repeat 7 17).
   eexists. eexists. eexists. split; [split; [vm_compute; reflexivity|reflexivity]|].
-  split; [vm_compute; reflexivity|]. split; [reflexivity|]. split; [reflexivity|]. split; [vm_compute; reflexivity|reflexivity].
+  split; [vm_compute; reflexivity|]. split; [reflexivity|]. split; [reflexivity|]. split; [vm_compute; reflexivity|].
+  split; reflexivity.
 Qed.
 
 (* the hypotheses are satisfiable: two samples with 8-byte IVs and sub-samples, parsed with an unknown IV size *)
